@@ -704,6 +704,17 @@ static inline flatcc_builder_ref_t flatcc_builder_refmap_insert(flatcc_builder_t
     return B->refmap ? flatcc_refmap_insert(B->refmap, src, ref) : ref;
 }
 
+/*
+ * The refmap key of a source vector: the address of its length field.
+ * The vector pointer itself points to the first element, and for an
+ * empty vector that is also the address of whatever object follows the
+ * vector in the buffer, so it cannot identify the vector.
+ */
+static inline const void *flatcc_builder_refmap_vec_key(const void *vec)
+{
+    return vec ? (const void *)((const uint8_t *)vec - sizeof(flatbuffers_uoffset_t)) : 0;
+}
+
 static inline void flatcc_builder_refmap_reset(flatcc_builder_t *B)
 {
     if (B->refmap) flatcc_refmap_reset(B->refmap);
